@@ -2,7 +2,7 @@
 packet tags, and the literal file-to-file forms of C09 / C11 / C03 built on it (statements about `TLX.Export.exportFile` on
 capture FILES whose packets sit at different positions). To be required by c09 / c11 / c03 / c08 (THEOREMS_NAT: by each of them, or by c04).
 NOTE: keep theorem names short — the audit prints one line per theorem and a line beyond ~120 characters is wrapped and lost."""
-MODULES = ["TLX.Props.ExportInputs2"]
+MODULES = ["TLX.Lemmas.TagNat", "TLX.Props.ExportInputs2"]
 _L = "TLX.Lemmas.TagNat."
 _NS = "TLX.Props.ExportInputs2."
 # the core: no part of the program compares tags (any renaming rho, no injectivity / monotonicity needed)
